@@ -126,6 +126,8 @@ OnNew(e) ==
 
 -----------------------------------------------------------------------------
 (* allocation *)
+\* detail::alignment_for: the largest power of two dividing the size, at most max_alignment (16)
+AlignmentFor(sz) == IF sz % 16 = 0 THEN 16 ELSE IF sz % 8 = 0 THEN 8 ELSE IF sz % 4 = 0 THEN 4 ELSE IF sz % 2 = 0 THEN 2 ELSE 1
 \* node slots of a pool's block that no live allocation touches; the ordered free list keeps every free
 \* node sorted by address, so an array fits without growth iff `need` such slots are adjacent in one block
 SlotFree(i, off, ns) == \A a \in st.live : ~(a.b = i - 1 /\ a.off < off + ns /\ off < a.off + a.len)
@@ -193,6 +195,10 @@ OnAlloc(e) ==
                 "C03", "ImpossibleRequestNeverSucceeds", <<o.fam, e.len, e.al, e.cap0, e.cap1>>)
        \cup Chk(~(ok /\ traitsIface) \/ (e.al <= e.mxal /\ IF e.op = "n" THEN e.sz <= e.mxn ELSE e.len <= e.mxa),
                 "C18", "AboveMaxNeverSucceeds", <<o.fam, e.op, e.n, e.sz, e.al, e.mxn, e.mxa, e.mxal>>)
+       \* a collection serves a request through its traits only at the alignment its node size guarantees: an
+       \* over-aligned request is refused (bad_alignment), not absorbed
+       \cup Chk(~(ok /\ traitsIface /\ ~e.t /\ o.fam = "coll" /\ e.sz > 0) \/ e.al <= AlignmentFor(e.sz),
+                "C03", "OverAlignedRequestRefused", <<o.fam, e.op, e.sz, e.al>>)
        \* ---- C01 / C02: what a successful allocation returns ----
        \cup Chk(~ok \/ inside, "C01", "InsideOwned", <<o.fam, e.b, e.off, e.len>>)
        \cup Chk(~ok \/ clash = {}, "C01", "DisjointFromLive", <<o.fam, e.b, e.off, e.len, {a.id : a \in clash}>>)
